@@ -7,6 +7,7 @@ CONSTANTS
     InstKind <- MC_KindT
     NKeys = 2
     PropChoices <- MC_Props3
+    DupChoices <- MC_Dups
     Kinds <- MC_AllKinds
     Forms <- MC_AllForms
     MaxFrames = 3
